@@ -347,7 +347,13 @@ def check_case(which: str, W: int, specs: list, bs: int, pop: int = -1,
             return None
         if log:
             log('pass raised', repr(e))
-        return '%s:raised:%s' % (which, type(e).__name__)
+        # situation tag computed from the input only (keeps distinct defects apart)
+        sit = ''
+        if which != 'single' and bs > snap.W:
+            sit = ':block-size-exceeds-width'
+        elif which != 'single' and any(len(loc) > bs for (loc, _, _) in snap.top):
+            sit = ':gate-wider-than-block'
+        return '%s:raised:%s%s' % (which, type(e).__name__, sit)
     if log:
         log('output ', [(cy, op) for cy, op in circ.operations_with_cycles()])
         for cy, op in circ.operations_with_cycles():
